@@ -418,6 +418,10 @@ var propWire = &kit.Prop[WireCase]{
 				op.K, op.Req, op.Res = "X", &rq, &rs
 				delete(rs.Header, "Set-Cookie") // keep the scripted origin trivial: cookie attributes add nothing here
 				rq.CL, rs.CL = 0, 0             // bodiless messages on the wire
+				if uni(t, "odd", 3) == 0 {
+					// on the wire: percent-escaped query values of every kind, header values without control bytes
+					oddContent(t, &rq, &rs, tr.WireSafeOddHeaderValues)
+				}
 				if uni(t, "portedhost", 5) == 0 {
 					rq.Host = pick(t, "phost", tr.PortedHosts)
 				}
